@@ -60,10 +60,29 @@ theorem reviver_order (f : Reviver) (fuel : Nat) (name : Str) (v : RV) (h : dist
     TypeError exactly on a reference to an enclosing container (cycle), property-list filtering.
     (`gvOf` is where the remaining differences live: keys go through a Go map, strings through
     `goStr`, numbers through `walkNum`; they are the str_* regions.) -/
-theorem stringify_rules (M : MCtx) (S : SCtx) (hr : M.repl = S.repl) (hp : M.plist = S.plist)
+theorem stringify_rules (M : MCtx) (S : SCtx) (hr : M.repl = S.repl) (hp : M.plist = S.plist) (hc : M.cv = S.cv)
     (fuel depth : Nat) (key : Str) (v : SV) :
     walk M fuel depth key v = WR.map gvOf (serial S fuel depth key v) :=
-  walk_eq M S hr hp fuel depth key v
+  walk_eq M S hr hp hc fuel depth key v
+
+/-- `wrapper_unboxing`: a Number object is serialised as ToNumber of it and a String object as ToString
+    of it — [[DefaultValue]] calls `valueOf` / `toString` in the order of the hint, an own method
+    overrides the inherited one, a non-callable one is passed over, TypeError when neither is callable —
+    for every scripted pair of methods; a Boolean object gives its internal value.  The same function
+    unwraps the `space` argument (`spaceOf`). -/
+theorem wrapper_unboxing (cv : Conv) (v : SV) : unbox cv v = unbox4 cv v := unbox_eq cv v
+
+theorem space_arg_eq (cv : Conv) (a : Option SV) : C11.spaceOf cv a = Spec.spaceOf cv a := by
+  cases a with
+  | none => rfl
+  | some v =>
+    simp only [C11.spaceOf, Spec.spaceOf, unbox_eq]
+    cases unbox4 cv v <;> rfl
+
+/-- `new Number(1)` with an own `valueOf` returning 42 serialises as the number 42 -/
+example (cv : Conv) : unbox cv (.wrapNum (.fin false 1 0) (.ret (.num (.fin false 42 0))) .inherited) = .num (.fin false 42 0) := rfl
+/-- `toString = null` and a custom `valueOf` on a String object: ToString falls back to valueOf -/
+example (cv : Conv) : unbox cv (.wrapStr [97] (.ret (.str [98])) .notCallable) = .str [98] := rfl
 
 /-- `cycle_detect`: a reference to the k-th enclosing container throws exactly when it is enclosed
     (k < depth), in the model and in the spec alike, whatever the replacer does not change -/
@@ -175,7 +194,7 @@ example : C11.jsonParse [34, 92, 117, 100, 56, 48, 48, 34] ≠ Spec.jsonParse [3
 
 example : distinctKeys (.obj (.cons [97] .null (.cons [98] (.arr (.cons (.obj .nil) .nil)) .nil))) = true := by decide
 
-def idNum : FV → Str := fun _ => [48]
+def idNum : Conv := { numStr := fun _ => [48], strNum := fun _ => .nan }
 
 /-- str_key_order: {b:null,a:null} -/
 example : C11.jsonStringify OttoVerif.C06.Spec.exactLib idNum 9 (.obj (.cons [98] .null (.cons [97] .null .nil))) .none .absent
